@@ -153,6 +153,7 @@ type c31Harness struct {
 	inCmd    map[int]*c31Inv // running runs of the zoekt-merge-index stand-in, by pid
 	invSeq   int
 	draining bool
+	wake     chan struct{}
 	cmdKinds map[string]bool
 }
 
@@ -207,6 +208,7 @@ func (h *c31Harness) start(i int) *c31Worker {
 		w.ran = true
 		h.mu.Unlock()
 		close(w.entered)
+		h.poke()
 		<-w.release
 		h.mu.Lock()
 		delete(h.inBody, i)
@@ -227,6 +229,7 @@ func (h *c31Harness) start(i int) *c31Worker {
 		}
 		w.endTk = h.tick.Add(1)
 		close(w.done)
+		h.poke()
 	}()
 	<-w.started
 	return w
@@ -391,7 +394,7 @@ type c31Rel struct {
 
 func (r c31Rel) key() int {
 	if r.inv != nil {
-		return 1 << 20 + r.inv.seq
+		return 1<<20 + r.inv.seq
 	}
 	return r.w.idx
 }
